@@ -83,6 +83,9 @@ func init() {
 	})
 }
 
+// boundaryTails are the ends of clear windows that meet the envelope (see the directed cases of the masking stream).
+var boundaryTails = [][]byte{[]byte("%"), []byte("%%"), []byte("a%"), []byte("%a%"), []byte("\""), []byte("\"\""), []byte("\"\"\""), []byte("%%%%"), []byte("%\"")}
+
 func okBytes(out string) ([]byte, bool) {
 	if len(out) >= 4 && out[:3] == "ok " {
 		return core.UnHex(out[3:]), true
@@ -149,6 +152,25 @@ func run(r *core.Run) {
 			class = "random"
 		}
 		k := rd.Intn(l + 2)
+		// directed: a clear window that ends (left) or begins (right) with one or two bytes of tag material – the
+		// run of '%' / '"' in front of the envelope is then not a multiple of the tag length, and a scan that
+		// skips a whole tag after a failed parse jumps into the real tag
+		if d := i / 2; i%2 == 1 && d < len(boundaryTails)*4 {
+			tail := boundaryTails[d%len(boundaryTails)]
+			kind = []string{"struct", "block"}[(d/len(boundaryTails))%2]
+			side = []string{"left", "right"}[(d/len(boundaryTails)/2)%2]
+			body := rd.Bytes(14 + rd.Intn(10))
+			for j := range body {
+				body[j] = 'a' + body[j]%26
+			}
+			k = 4 + len(tail)
+			if side == "left" {
+				v = append(append(append([]byte{}, body[:4]...), tail...), body[4:]...)
+			} else {
+				v = append(append(append([]byte{}, body[4:]...), tail...), body[:4]...)
+			}
+			l, class = len(v), "boundary-tag-material"
+		}
 		pat := core.Pick(rd, patterns)
 		if rd.Chance(10) && k > 0 && k <= l {
 			for j := 0; j < k; j++ { // pattern equal to the window bytes (made printable)
